@@ -18,7 +18,7 @@ from lib import vlib
 PROP = ["Properties/C17.v"]
 TRUSTED = [
     "Coq 8.16.1 kernel (coqc); vm_compute only in Example/_refuted witnesses",
-    "no axioms of our own; Section variable is_print (unicode.IsPrint) with the stated ASCII hypothesis in Pack/QuoteProofs.v",
+    "no axioms of our own; Section variable is_print (unicode.IsPrint) with the hypotheses is_print LF = is_print CR = false in Pack/QuoteRound.v",
     "extraction: ExtrOcamlBasic only, no Extract Constant; Z/positive kept as Coq datatypes",
     "oracle/common/proto.ml + oracle/pack/driver.ml (glue), OCaml 4.13.1",
     "Go harness harness/cmd/gvh-pack/main.go (calls string.pack/unpack/packsize/format, tostring, tonumber, load through Lua wrappers)",
@@ -775,7 +775,7 @@ class State:
                 self.s_violation("string.%s contradicts the manual: expected %s, got %s" % sfail,
                                  {"kind": "Go!=S", "engine": "pack", "line": line, "format": fmtb.decode("latin-1"),
                                   "values": [repr(v) for v in values], "expected": sfail[1], "impl": impl, "model": model,
-                                  "theorems": ["C17_unpack_pack_partial", "C17_int_roundtrip", "C17_uint_roundtrip"]})
+                                  "theorems": ["C17_unpack_pack", "C17_int_roundtrip", "C17_uint_roundtrip"]})
         # ---- Go vs IM
         if "EUnmodelled" in mP or "EUnmodelled" in mU:
             ck.count("model:unmodelled-coercion")
@@ -889,7 +889,7 @@ class State:
             if gU == "panic":
                 self.s_violation("string.unpack panics the Go runtime",
                                  {"kind": "Go!=S", "engine": "pack", "line": line, "impl": impl[i], "model": model[i],
-                                  "theorems": []})
+                                  "theorems": ["C17_unpack_no_panic"]})
                 continue
             same = gU.startswith("err:") if mU == "err:EOverflow" else (gU == mU)
             if not same:
@@ -932,7 +932,7 @@ class State:
                     self.s_violation("load('return '..string.format('%%q', s))() does not give s back (s = %r)" % s,
                                      {"kind": "Go!=S", "engine": "pack", "line": lines[i], "literal": lit.decode("latin-1"),
                                       "impl": impl[i], "model": model[i], "manual_reading": repr(ref),
-                                      "theorems": ["C17_quote_load_former_witness"]})
+                                      "theorems": ["C17_quote_load_string"]})
             same = gi.get("Q") == mo.get("Q") and gi.get("L") == mo.get("L") and (gi.get("L") != "K" or gi.get("V") == mo.get("V"))
             if not same:
                 self.im_difference(lines[i], impl[i], model[i])
@@ -1049,8 +1049,9 @@ class State:
             ck.violation("implementation no longer matches the Coq model Pack/Model.v (Go≈IM/pack): %d differences; "
                          "no property-level failure found" % self.im_diff,
                          dict(self.first_im, kind="Go!=IM", correspondence="Go≈IM/pack",
-                              theorems_no_longer_about_this_code=["C17_unpack_pack_partial", "C17_int_roundtrip", "C17_uint_roundtrip",
-                                                                  "C17_quote_load_former_witness"]),
+                              theorems_no_longer_about_this_code=["C17_unpack_pack", "C17_int_roundtrip", "C17_uint_roundtrip",
+                                                                  "C17_unpack_no_panic", "C17_malformed_format_is_error",
+                                                                  "C17_quote_load_string", "C17_quote_load_int", "C17_tonumber_tostring_int"]),
                          no_input=True)
         elif self.im_diff:
             ck.log("%d Go≠IM differences (first: %s)" % (self.im_diff, self.first_im))
@@ -1089,7 +1090,7 @@ def real_c_printf(ck, meta):
         conv = sp[-1]
         if conv not in "diuxXoc" or sp == "%%" or c_printf(sp, args) is None:
             continue
-        body = sp[1:-1]
+        body = sp[1:-1].replace(" ", "_")
         if conv == "c":
             lines.append("%%%sc c %d" % (body, args[0]))
         elif conv in "di":
